@@ -96,9 +96,10 @@ Fixpoint to_external (fuel : nat) (queue : list (option str * xtree)) (remaining
     match queue, remaining with
     | [], _ | _, [] => external
     | (parent, pc) :: rest, _ =>
+      (* the children of a config are queued only once the config itself has been found active *)
       let queue' := rest ++ map (fun c => (Some (xt_name pc), c)) (xt_children pc) in
       match alookup (xt_name pc) remaining with
-      | None => to_external fuel' queue' remaining values external
+      | None => to_external fuel' rest remaining values external
       | Some v =>
         let active := match parent with
                       | None => true
@@ -110,7 +111,7 @@ Fixpoint to_external (fuel : nat) (queue : list (option str * xtree)) (remaining
         if active then
           to_external fuel' queue' (aremove (xt_name pc) remaining) (values ++ [(xt_name pc, v)])
                       (external ++ [(xt_name pc, cast (xt_ext pc) v)])
-        else to_external fuel' queue' remaining values external
+        else to_external fuel' rest remaining values external
       end
     end
   end.
